@@ -150,6 +150,67 @@ theorem entry_bounds (s : St) (pre args a : Nat) (evs : List Ev) (ql tl : Nat)
   have := hd.1
   omega
 
+/-- `entry_bounds` from the per-frame hypothesis (`FrameSafeUntil`). -/
+theorem entry_bounds_frame (s : St) (pre args a : Nat) (evs : List Ev)
+    (hhost : inLoop s = false) (hc : Consistent s.vm) (hw : s.vm.regs - s.vm.base + pre < 256)
+    (hsafe : FrameSafeUntil s.conts.length evs (enter pre args (.koto a) s))
+    (hex : Exited s (runEntry pre args (.koto a) evs s)) :
+    let s' := runEntry pre args (.koto a) evs s
+    s'.vm.regs = s.vm.regs ∧ s'.vm.seq = s.vm.seq ∧ s'.vm.str = s.vm.str := by
+  intro s'
+  have hr := hc.regs
+  have hup := entry_no_register_residue s pre args a evs hhost hc (by omega) hex
+  have hfr := (entry_clean_frames s pre args a evs hhost hc hex).1
+  let x0 : Exit := .truncate (nextRegister s.vm)
+  let B : Bnd := ⟨s.vm.regs, s.vm.seq, s.vm.str, s.vm.seq, s.vm.str⟩
+  have hw1 : (s.vm.regs - s.vm.base) % 256 = s.vm.regs - s.vm.base := Nat.mod_eq_of_lt (by omega)
+  have hw2 : (s.vm.regs + pre - s.vm.base) % 256 = s.vm.regs + pre - s.vm.base :=
+    Nat.mod_eq_of_lt (by omega)
+  have h0 : Inv s (.loop x0) (enter pre args (.koto a) s) [.loop x0] := by
+    refine ⟨?_, ?_, ?_, ?_, ?_, ?_, ?_⟩
+    · simp [enter, enterWith, x0]
+    · simp [enter, enterWith, callKoto, pushFrame, peelAll, dropLoop]
+    · simp [enter, enterWith, callKoto, pushFrame, topBase]
+    · intro hl; simp [hasLoop] at hl
+    · simp [enter, enterWith, callKoto, pushFrame, impMods]
+    · intro _; rfl
+    · intro hn; simp at hn
+  have hself : GeAbove B s.vm.stack s.vm.stack := by
+    intro X hX
+    have : X = [] := List.self_eq_append_left.mp hX
+    subst this
+    exact ⟨fun f hf => by simp at hf, fun b hb => by simp at hb⟩
+  have hl0 : Low B (.loop x0) s.vm.stack (enter pre args (.koto a) s) [.loop x0] := by
+    refine ⟨fun _ => ?_, fun _ => ?_, fun _ => ?_, fun _ => ?_, fun hn => by simp at hn⟩
+    · simp [enter, enterWith, callKoto, pushFrame, nextRegister, hw2, B]; omega
+    · simp [enter, enterWith, callKoto, pushFrame, B]
+    · simp [enter, enterWith, callKoto, pushFrame, B]
+    · simp only [enter, enterWith, callKoto, pushFrame]
+      refine GeAbove_cons B _ _ _ [] rfl ⟨?_, Nat.le_refl _, Nat.le_refl _, fun c hc => by simp at hc⟩
+        (fun _ => ⟨rfl, rfl⟩) hself
+      simp [nextRegister, hw2, B]; omega
+  obtain ⟨Y', h', hl'⟩ := runUntil_low_frame s x0 hhost hc B evs _ _ h0 hl0 hsafe
+  have hY : Y' = [] := by
+    have := h'.conts
+    have hex' : (runEntry pre args (.koto a) evs s).conts.length ≤ s.conts.length := hex
+    simp only [runEntry] at hex'
+    rw [this] at hex'
+    simp at hex'
+    exact List.eq_nil_of_length_eq_zero (by omega)
+  have hd := hl'.doneR hY
+  simp only [DoneR, x0, B] at hd
+  have hb : (runUntil s.conts.length evs (enter pre args (.koto a) s)).vm.base = s.vm.base := hfr.2.1
+  rw [hb] at hd
+  simp only [nextRegister, hw1, Nat.min_self] at hd
+  have hup' : (runUntil s.conts.length evs (enter pre args (.koto a) s)).vm.regs ≤ s.vm.regs := hup
+  refine ⟨?_, ?_, ?_⟩
+  · show (runUntil s.conts.length evs (enter pre args (.koto a) s)).vm.regs = s.vm.regs
+    have := hd.1; omega
+  · show (runUntil s.conts.length evs (enter pre args (.koto a) s)).vm.seq = s.vm.seq
+    have := hd.2.1; have := hd.2.2.2.1; omega
+  · show (runUntil s.conts.length evs (enter pre args (.koto a) s)).vm.str = s.vm.str
+    have := hd.2.2.1; have := hd.2.2.2.2; omega
+
 /-- **entry_clean (registers)**: under the no-wrap hypothesis for the entry's *own* window
 (`regs - base + pre < 256`; nothing is assumed about nested entries — their result registers may
 wrap, every frame they use still lies above `regs`), the value stack has exactly its old length
@@ -197,6 +258,32 @@ theorem entry_clean (s : St) (pre args a : Nat) (evs : List Ev)
   refine ⟨⟨hb.1, h2, h3, h4, ?_, ?_, h5⟩, h6⟩
   · have := hb.2.1; have := hb.2.2.2.1; simp only [Nat.min_self] at *; omega
   · have := hb.2.2.1; have := hb.2.2.2.2; simp only [Nat.min_self] at *; omega
+
+/-- **entry_clean for verified bytecode**: the same conclusion from the *per-frame* hypothesis
+`FrameSafeUntil` — a `SequenceToList` / `StringFinish` is only executed while the current frame has
+a builder of its own open. This is the trace-level reading of C05's `wf_sound_balance` (in a chunk
+accepted by `wfChunk`, no builder instruction of a frame unit finds the unit's builder stack empty;
+C05 counts depths relative to the frame entry, here the absolute depth is the frame's recorded
+`builder_counts` plus that relative depth, which `pop_frame`'s truncation keeps true). The remaining
+link — that the event trace of an execution of verified chunks satisfies `FrameSafeUntil` — needs the
+instruction-level simulation between C05's per-unit abstract VM and this model; it is not proved
+here and is the documented hypothesis. -/
+theorem entry_clean_wf (s : St) (pre args a : Nat) (evs : List Ev)
+    (hhost : inLoop s = false) (hc : Consistent s.vm) (hw : s.vm.regs - s.vm.base + pre < 256)
+    (hsafe : FrameSafeUntil s.conts.length evs (enter pre args (.koto a) s))
+    (hex : Exited s (runEntry pre args (.koto a) evs s)) :
+    Clean s.vm (runEntry pre args (.koto a) evs s).vm ∧
+    (runEntry pre args (.koto a) evs s).conts = s.conts := by
+  have hb := entry_bounds_frame s pre args a evs hhost hc hw hsafe hex
+  have hf := entry_clean_frames s pre args a evs hhost hc hex
+  simp only [] at hb hf
+  obtain ⟨⟨h2, h3, h4, h5⟩, h6, _⟩ := hf
+  exact ⟨⟨hb.1, h2, h3, h4, hb.2.1, hb.2.2, h5⟩, h6⟩
+
+example : FrameSafeUntil 0 [.newFrame 4, .seqStart, .call 2 0, .newFrame 1, .strStart, .strEnd,
+    .raise true] (enter 0 0 (.koto 0) init) := by
+  simp [FrameSafeUntil, FrameSafeEv, enter, enterWith, step, inLoop, callKoto, pushFrame, modTop,
+    nextRegister, init]
 
 /-- Host-level corollary (the shape of C07): on an instance whose bookkeeping is all-zero, a
 `run` / `call_function` on a Koto callee, with any execution and any outcome, leaves registers,
